@@ -13,6 +13,13 @@ Lemma f_exclusive : lock_type_exclusive && lock_whole_file = true. Proof. reflex
 Lemma f_nonblocking : lock_cmd_nonblocking = true. Proof. reflexivity. Qed.
 Lemma f_busy_exits : lock_busy_exits = true. Proof. reflexivity. Qed.
 Lemma f_stat_new : stat_ok lock_inode = true. Proof. reflexivity. Qed.
+(* random.c: the seed reader returns on an empty / short and on a complete seed file; the seed writer unlinks the
+   old file, then creates the new one (O_CREAT, not O_EXCL, mode 0600), creating a missing and renewing an existing one *)
+Lemma f_seed_read_returns : seed_read_short_returns = true /\ seed_read_full_returns = true.
+Proof. split; reflexivity. Qed.
+Lemma f_seed_write_shape : seed_write_unlinks_first = 1%N /\ seed_open_creat = true /\ seed_open_excl = false /\
+  seed_create_mode = 384%N /\ seed_write_creates_missing = true /\ seed_write_renews_existing = true.
+Proof. repeat split; reflexivity. Qed.
 Lemma f_no_unlink_in_lock_create : lock_busy_unlinks = 0%N /\ lock_free_unlinks = 0%N /\ lock_free_exits = false.
 Proof. repeat split; reflexivity. Qed.
 
@@ -58,21 +65,23 @@ Proof. intros s p a s1 pr1 H1 H2 H3. unfold step. now rewrite H1, H2, H3. Qed.
 
 (* the program, by position *)
 Lemma prog_at : forall n a, nth_error prog n = Some a ->
-  (n = 0 /\ a = OpenLock) \/ (n = 1 /\ a = FstatLock) \/ (n = 2 /\ a = SetLk) \/ (n = 3 /\ a = Unlink NSock) \/
-  (n = 4 /\ a = Bind) \/ (n = 5 /\ a = Listen) \/ (n = 6 /\ a = Unlink NPid) \/ (n = 7 /\ a = WritePid) \/
-  (n = 8 /\ a = Serve) \/ (n = 9 /\ a = Unlink NSock) \/ (n = 10 /\ a = CloseSock) \/ (n = 11 /\ a = Unlink NLock) \/
-  (n = 12 /\ a = CloseLock) \/ (n = 13 /\ a = Unlink NSeed) \/ (n = 14 /\ a = WriteSeed) \/
-  (n = 15 /\ a = Unlink NPid) \/ (n = 16 /\ a = Exit).
+  (n = 0 /\ a = ReadSeed) \/
+  (n = 1 /\ a = OpenLock) \/ (n = 2 /\ a = FstatLock) \/ (n = 3 /\ a = SetLk) \/ (n = 4 /\ a = Unlink NSock) \/
+  (n = 5 /\ a = Bind) \/ (n = 6 /\ a = Listen) \/ (n = 7 /\ a = Unlink NPid) \/ (n = 8 /\ a = OpenPid) \/
+  (n = 9 /\ a = WritePid) \/
+  (n = 10 /\ a = Serve) \/ (n = 11 /\ a = Unlink NSock) \/ (n = 12 /\ a = CloseSock) \/ (n = 13 /\ a = Unlink NLock) \/
+  (n = 14 /\ a = CloseLock) \/ (n = 15 /\ a = Unlink NSeed) \/ (n = 16 /\ a = OpenSeed) \/ (n = 17 /\ a = WriteSeed) \/
+  (n = 18 /\ a = Unlink NPid) \/ (n = 19 /\ a = Exit).
 Proof.
   intros n a H.
-  do 17 (destruct n as [|n]; [cbn in H; inv H; tauto|]).
+  do 20 (destruct n as [|n]; [cbn in H; inv H; tauto|]).
   cbn in H. destruct n; discriminate.
 Qed.
 
 (* ---- the general invariant: holds on every reachable state, clean stops included ---- *)
 Record GInv (s : state) : Prop := {
   g_own : forall i p, lockown s i = Some p ->
-            st (procs s p) = Running /\ lockfd (procs s p) = Some i /\ 3 <= pc (procs s p);
+            st (procs s p) = Running /\ lockfd (procs s p) = Some i /\ 4 <= pc (procs s p);
   g_lockino : forall i, names s NLock = Some i -> stat_ok (inodes s i) = true;
   g_names_lt : forall n i, names s n = Some i -> i < next s;
   g_fd_lt : forall p i, lockfd (procs s p) = Some i -> i < next s;
@@ -194,24 +203,25 @@ Qed.
 Record SInv (s : state) : Prop := {
   s_g : GInv s;
   s_pc : forall p, st (procs s p) = Running -> pc (procs s p) <= serve_pc;
-  s_fd : forall p, st (procs s p) = Running ->
+  s_fd : forall p, st (procs s p) = Running -> 2 <= pc (procs s p) ->
            exists i, lockfd (procs s p) = Some i /\ names s NLock = Some i;
-  s_held : forall p i, st (procs s p) = Running -> 3 <= pc (procs s p) ->
+  s_held : forall p i, st (procs s p) = Running -> 4 <= pc (procs s p) ->
            lockfd (procs s p) = Some i -> lockown s i = Some p;
-  s_sock : forall p, st (procs s p) = Running -> 5 <= pc (procs s p) ->
+  s_sock : forall p, st (procs s p) = Running -> 6 <= pc (procs s p) ->
            exists j, sockfd (procs s p) = Some j /\ names s NSock = Some j;
-  s_lis : forall p j, st (procs s p) = Running -> 6 <= pc (procs s p) ->
+  s_lis : forall p j, st (procs s p) = Running -> 7 <= pc (procs s p) ->
            sockfd (procs s p) = Some j -> listener s j = Some p;
-  s_unl : forall p, st (procs s p) = Running -> pc (procs s p) = 4 -> names s NSock = None;
-  s_pid : forall p, st (procs s p) = Running -> 8 <= pc (procs s p) ->
+  s_unl : forall p, st (procs s p) = Running -> pc (procs s p) = 5 -> names s NSock = None;
+  s_pidname : forall p, st (procs s p) = Running -> 9 <= pc (procs s p) -> names s NPid <> None;
+  s_pid : forall p, st (procs s p) = Running -> 10 <= pc (procs s p) ->
            exists f, names s NPid = Some f /\ content s f = Some p }.
 
 Lemma SInv_unique : forall s p q, SInv s ->
-  st (procs s p) = Running -> 3 <= pc (procs s p) ->
-  st (procs s q) = Running -> 3 <= pc (procs s q) -> p = q.
+  st (procs s p) = Running -> 4 <= pc (procs s p) ->
+  st (procs s q) = Running -> 4 <= pc (procs s q) -> p = q.
 Proof.
   intros s p q I Hp Hp3 Hq Hq3.
-  destruct (s_fd _ I _ Hp) as (i & Hi & Hn). destruct (s_fd _ I _ Hq) as (i' & Hi' & Hn').
+  destruct (s_fd _ I _ Hp ltac:(lia)) as (i & Hi & Hn). destruct (s_fd _ I _ Hq ltac:(lia)) as (i' & Hi' & Hn').
   rewrite Hn in Hn'. inv Hn'.
   pose proof (s_held _ I _ _ Hp Hp3 Hi) as A. pose proof (s_held _ I _ _ Hq Hq3 Hi') as B. congruence.
 Qed.
@@ -231,14 +241,15 @@ Lemma quiet_SInv : forall s, GInv s -> (forall p, st (procs s p) <> Running) -> 
 Proof. intros s G Hq. constructor; auto; intros p; intros; exfalso; eapply Hq; eauto. Qed.
 
 Lemma SInv_self : forall s q, SInv s -> startable (procs s q) = true ->
-  pc (procs s q) <= 8 /\
+  pc (procs s q) <= 10 /\
   (1 <= pc (procs s q) -> st (procs s q) = Running) /\
-  (1 <= pc (procs s q) -> exists i, lockfd (procs s q) = Some i /\ names s NLock = Some i) /\
-  (3 <= pc (procs s q) -> forall i, lockfd (procs s q) = Some i -> lockown s i = Some q) /\
-  (5 <= pc (procs s q) -> exists j, sockfd (procs s q) = Some j /\ names s NSock = Some j) /\
-  (6 <= pc (procs s q) -> forall j, sockfd (procs s q) = Some j -> listener s j = Some q) /\
-  (pc (procs s q) = 4 -> names s NSock = None) /\
-  (3 <= pc (procs s q) -> forall p, st (procs s p) = Running -> 3 <= pc (procs s p) -> p = q).
+  (2 <= pc (procs s q) -> exists i, lockfd (procs s q) = Some i /\ names s NLock = Some i) /\
+  (4 <= pc (procs s q) -> forall i, lockfd (procs s q) = Some i -> lockown s i = Some q) /\
+  (6 <= pc (procs s q) -> exists j, sockfd (procs s q) = Some j /\ names s NSock = Some j) /\
+  (7 <= pc (procs s q) -> forall j, sockfd (procs s q) = Some j -> listener s j = Some q) /\
+  (pc (procs s q) = 5 -> names s NSock = None) /\
+  (4 <= pc (procs s q) -> forall p, st (procs s p) = Running -> 4 <= pc (procs s p) -> p = q) /\
+  (9 <= pc (procs s q) -> names s NPid <> None).
 Proof.
   intros s q I Hst.
   assert (Hr : 1 <= pc (procs s q) -> st (procs s q) = Running).
@@ -248,12 +259,13 @@ Proof.
   - unfold startable in Hst. destruct (st (procs s q)) eqn:Es; try discriminate.
     + apply (g_fresh _ (s_g _ I)) in Es. lia.
     + apply (s_pc _ I); auto.
-  - intros. apply (s_fd _ I); auto.
+  - intros. apply (s_fd _ I); auto. apply Hr; lia.
   - intros. apply (s_held _ I); auto. apply Hr; lia.
   - intros. apply (s_sock _ I); auto. apply Hr; lia.
   - intros. apply (s_lis _ I); auto. apply Hr; lia.
   - intros. apply (s_unl _ I q); auto. apply Hr; lia.
   - intros H3 p Hp Hp3. eapply SInv_unique; eauto. apply Hr; lia.
+  - intros. apply (s_pidname _ I q); auto. apply Hr; lia.
 Qed.
 
 Lemma SInv_cont : forall s q a s1 pr1, SInv s -> startable (procs s q) = true ->
@@ -266,9 +278,9 @@ Proof.
   repeat (destruct Hn as [[Hpc Ha]|Hn]); try destruct Hn as [Hpc Ha]; subst a;
     try (exfalso; pose proof (SInv_self _ _ I Hst) as (Hpcq & _); lia);
     rewrite Hpc in *; cbn in E; break_exec E; inv E.
-  all: pose proof (SInv_self _ _ I Hst) as (Hpcq & Hrq & Hfdq & Hheldq & Hsockq & Hlisq & Hunlq & Huniq).
+  all: pose proof (SInv_self _ _ I Hst) as (Hpcq & Hrq & Hfdq & Hheldq & Hsockq & Hlisq & Hunlq & Huniq & Hpidq).
   all: rewrite Hpc in *.
-  all: destruct I as [G s_pc0 s_fd0 s_held0 s_sock0 s_lis0 s_unl0 s_pid0].
+  all: destruct I as [G s_pc0 s_fd0 s_held0 s_sock0 s_lis0 s_unl0 s_pidname0 s_pid0].
   all: constructor; [exact G'|..]; cbn; intros.
   all: unfold upd, updn in *; eqb_cases; cbn in *.
   all: try solve [ eauto ].
@@ -281,10 +293,11 @@ Proof.
   all: try solve [ exfalso; match goal with n : _ <> _ |- _ => apply n; apply Huniq; auto; lia end ].
   all: try solve [ congruence ].
   all: try solve [ exfalso; match goal with Hr : st (procs _ ?p) = Running |- _ =>
-                     destruct (s_fd0 _ Hr) as (? & ? & ?); congruence end ].
+                     destruct (s_fd0 _ Hr ltac:(lia)) as (? & ? & ?); congruence end ].
   all: try solve [ exfalso; match goal with Hl : lockfd (procs _ ?p) = Some ?i, Hr : st (procs _ ?p) = Running |- _ =>
                      pose proof (s_held0 p i Hr ltac:(lia) Hl); congruence end ].
   all: try solve [ eexists; split; [eauto|]; rewrite ?Nat.eqb_refl; auto ].
+  all: try solve [ exfalso; apply Hpidq; auto; lia ].
 Qed.
 
 Definition no_term (l : label) : Prop := match l with Term _ => False | _ => True end.
@@ -314,14 +327,14 @@ Proof.
 Qed.
 
 (* ---- statements' vocabulary ---- *)
-Definition past_setlk (s : state) (p : nat) : Prop := st (procs s p) = Running /\ 3 <= pc (procs s p).
+Definition past_setlk (s : state) (p : nat) : Prop := st (procs s p) = Running /\ 4 <= pc (procs s p).
 Definition holder (s : state) (p : nat) : Prop :=
   exists i, names s NLock = Some i /\ lockown s i = Some p /\ lockfd (procs s p) = Some i.
 Definition quiet (s : state) : Prop := forall p, st (procs s p) <> Running.
 
 Lemma SInv_holder : forall s p, SInv s -> past_setlk s p -> holder s p.
 Proof.
-  intros s p I [Hr H3]. destruct (s_fd _ I _ Hr) as (i & Hi & Hn). exists i. repeat split; auto.
+  intros s p I [Hr H3]. destruct (s_fd _ I _ Hr ltac:(lia)) as (i & Hi & Hn). exists i. repeat split; auto.
   eapply s_held; eauto.
 Qed.
 
@@ -332,7 +345,7 @@ Lemma SInv_serving : forall s p, SInv s -> at_serve s p = true -> serving s p = 
 Proof.
   intros s p I Ha. unfold serving. rewrite Ha. unfold at_serve in Ha.
   destruct (st (procs s p)) eqn:Es; try discriminate. apply Nat.eqb_eq in Ha. cbn in Ha.
-  destruct (s_fd _ I _ Es) as (i & Hi & Hn). rewrite Hn.
+  destruct (s_fd _ I _ Es ltac:(lia)) as (i & Hi & Hn). rewrite Hn.
   rewrite (opt_is_true _ _ (s_held _ I _ _ Es ltac:(lia) Hi)), (opt_is_true _ _ Hi).
   destruct (s_sock _ I _ Es ltac:(lia)) as (j & Hj & Hnj). rewrite Hnj.
   rewrite (opt_is_true _ _ (s_lis _ I _ _ Es ltac:(lia) Hj)), (opt_is_true _ _ Hj).
@@ -387,10 +400,10 @@ Lemma loser_frame : forall s1 p s2, GInv s1 -> step s1 (Step p) = Some s2 -> ~ p
 Proof.
   intros s1 p s2 G H Hnp.
   apply step_Step_inv in H. destruct H as (Hst & a & Hn & H).
-  assert (Hlt : pc (procs s1 p) < 3).
+  assert (Hlt : pc (procs s1 p) < 4).
   { unfold startable in Hst. destruct (st (procs s1 p)) eqn:Es; try discriminate.
     - apply (g_fresh _ G) in Es. lia.
-    - destruct (le_lt_dec 3 (pc (procs s1 p))); auto. exfalso. apply Hnp. split; auto. }
+    - destruct (le_lt_dec 4 (pc (procs s1 p))); auto. exfalso. apply Hnp. split; auto. }
   destruct H as [(s' & pr1 & E & ->)|[(s' & E & ->)|(s' & E & ->)]].
   - apply prog_at in Hn.
     repeat (destruct Hn as [[Hpc Ha]|Hn]); try destruct Hn as [Hpc Ha]; subst a; try (exfalso; lia);
@@ -410,12 +423,12 @@ Lemma loser_exits : forall s1 w p s2, SInv s1 -> past_setlk s1 w -> w <> p ->
   step s1 (Step p) = Some s2 -> st (procs s2 p) = Failed /\ untouched s1 s2 p.
 Proof.
   intros s1 w p s2 I [Hw Hw3] Hne Hst Hn H.
-  assert (Hpc : pc (procs s1 p) = 2).
+  assert (Hpc : pc (procs s1 p) = 3).
   { unfold next_prim in Hn. apply prog_at in Hn.
     repeat (destruct Hn as [[Hpc Ha]|Hn]); try destruct Hn as [Hpc Ha]; try discriminate; auto. }
   destruct (SInv_self _ _ I Hst) as (_ & Hr & Hfd & _).
   destruct (Hfd ltac:(lia)) as (i & Hi & Hni).
-  destruct (s_fd _ I _ Hw) as (i' & Hi' & Hni'). rewrite Hni in Hni'. inv Hni'.
+  destruct (s_fd _ I _ Hw ltac:(lia)) as (i' & Hi' & Hni'). rewrite Hni in Hni'. inv Hni'.
   pose proof (s_held _ I _ _ Hw Hw3 Hi') as Hown.
   unfold step in H. rewrite Hst in H. unfold next_prim in Hn. rewrite Hn in H.
   cbn in H. rewrite Hi, Hown in H. destruct (Nat.eqb_spec w p); [contradiction|]. inv H.
@@ -433,7 +446,7 @@ Proof.
   split; auto. destruct (names s NLock); [discriminate|]. discriminate.
 Qed.
 
-Lemma at_serve_inv : forall s w, at_serve s w = true -> st (procs s w) = Running /\ pc (procs s w) = 8.
+Lemma at_serve_inv : forall s w, at_serve s w = true -> st (procs s w) = Running /\ pc (procs s w) = 10.
 Proof.
   unfold at_serve; intros s w H. destruct (st (procs s w)); try discriminate. apply Nat.eqb_eq in H. auto.
 Qed.
@@ -474,17 +487,19 @@ Qed.
 
 (* ---- progress: a starting process that meets no foreign lock reaches service; once it holds the lock
         it cannot be stopped by anything other processes do (only by SIGKILL) ---- *)
-Lemma start_progress : forall s q, SInv s -> startable (procs s q) = true -> pc (procs s q) < 8 ->
-  (pc (procs s q) < 3 -> forall i p, lockown s i = Some p -> p = q) ->
+Lemma start_progress : forall s q, SInv s -> startable (procs s q) = true -> pc (procs s q) < 10 ->
+  (pc (procs s q) < 4 -> forall i p, lockown s i = Some p -> p = q) ->
   exists s', step s (Step q) = Some s' /\ st (procs s' q) = Running /\ pc (procs s' q) = S (pc (procs s q)) /\
              (forall p, p <> q -> procs s' p = procs s p) /\
              (forall i p, lockown s' i = Some p -> p = q \/ lockown s i = Some p).
 Proof.
   intros s q I Hst Hlt Hfree.
-  pose proof (SInv_self _ _ I Hst) as (_ & Hrq & Hfdq & Hheldq & Hsockq & Hlisq & Hunlq & _).
+  pose proof (SInv_self _ _ I Hst) as (_ & Hrq & Hfdq & Hheldq & Hsockq & Hlisq & Hunlq & _ & Hpidq).
   assert (Hc : exists a s1 pr1, nth_error prog (pc (procs s q)) = Some a /\ exec s q (procs s q) a = Cont s1 pr1 /\
                (forall i p, lockown s1 i = Some p -> p = q \/ lockown s i = Some p) /\ procs s1 = procs s).
-  { destruct (pc (procs s q)) as [|[|[|[|[|[|[|[|n]]]]]]]] eqn:Hpc; try (exfalso; lia).
+  { destruct (pc (procs s q)) as [|[|[|[|[|[|[|[|[|[|n]]]]]]]]]] eqn:Hpc; try (exfalso; lia).
+    - exists ReadSeed. cbn. destruct (names s NSeed) as [f|]; [destruct (content s f)|]; cbn;
+        do 2 eexists; repeat split; eauto.
     - exists OpenLock. cbn. destruct (names s NLock); do 2 eexists; repeat split; eauto.
     - exists FstatLock. cbn. destruct (Hfdq ltac:(lia)) as (i & Hi & Hn). rewrite Hi.
       rewrite (g_lockino _ (s_g _ I) _ Hn). do 2 eexists; repeat split; eauto.
@@ -498,14 +513,15 @@ Proof.
     - exists Bind. cbn. rewrite (Hunlq eq_refl). do 2 eexists; repeat split; eauto.
     - exists Listen. cbn. destruct (Hsockq ltac:(lia)) as (j & Hj & _). rewrite Hj. do 2 eexists; repeat split; eauto.
     - exists (Unlink NPid). cbn. do 2 eexists; repeat split; eauto.
+    - exists OpenPid. cbn. destruct (names s NPid); do 2 eexists; repeat split; eauto.
     - exists WritePid. cbn. destruct (names s NPid); do 2 eexists; repeat split; eauto. }
   destruct Hc as (a & s1 & pr1 & Hn & E & Hl & Hp).
   eexists. split; [eapply step_cont; eauto|]. cbn. rewrite upd_same. cbn. repeat split; auto.
   intros p Hne. rewrite upd_other; auto. now rewrite Hp.
 Qed.
 
-Lemma start_progress_n : forall n s q, SInv s -> startable (procs s q) = true -> pc (procs s q) + n <= 8 ->
-  (pc (procs s q) < 3 -> forall i p, lockown s i = Some p -> p = q) ->
+Lemma start_progress_n : forall n s q, SInv s -> startable (procs s q) = true -> pc (procs s q) + n <= 10 ->
+  (pc (procs s q) < 4 -> forall i p, lockown s i = Some p -> p = q) ->
   exists s', run s (repeat (Step q) n) = Some s' /\ SInv s' /\ startable (procs s' q) = true /\
              pc (procs s' q) = pc (procs s q) + n /\ (forall p, p <> q -> procs s' p = procs s p).
 Proof.
@@ -517,10 +533,10 @@ Proof.
     assert (Hst1 : startable (procs s1 q) = true) by (unfold startable; now rewrite Hr1).
     destruct (IH s1 q I1 Hst1 ltac:(lia)) as (s' & Hrun & I' & Hst' & Hpc' & Hoth').
     { intros _ i p Hi. destruct (Hlk _ _ Hi) as [->|Hi']; auto.
-      destruct (le_lt_dec 3 (pc (procs s q))) as [Hge|Hlt3]; [|eauto].
+      destruct (le_lt_dec 4 (pc (procs s q))) as [Hge|Hlt3]; [|eauto].
       (* q already holds the lock: any other owner would be a second holder *)
       destruct (g_own _ (s_g _ I) _ _ Hi') as (Hp & _ & Hp3).
-      pose proof (SInv_self _ _ I Hst) as (_ & Hrq & _ & _ & _ & _ & _ & Huniq). now apply Huniq. }
+      pose proof (SInv_self _ _ I Hst) as (_ & Hrq & _ & _ & _ & _ & _ & Huniq & _). now apply Huniq. }
     exists s'. split; [assumption|]. split; [assumption|]. split; [assumption|]. split; [lia|].
     intros p Hne. rewrite Hoth'; auto.
 Qed.
@@ -567,30 +583,34 @@ Definition seed_inode := mkIno Reg 384.
 
 Record ShInv (s0 s : state) (p : nat) : Prop := {
   sh_run : st (procs s p) = Running;
-  sh_pc : 9 <= pc (procs s p) <= 16;
+  sh_pc : 11 <= pc (procs s p) <= 19;
   sh_next : next s0 <= next s;
-  sh_sock : 10 <= pc (procs s p) -> names s NSock = None;
-  sh_lock : 12 <= pc (procs s p) -> names s NLock = None;
-  sh_unlseed : pc (procs s p) = 14 -> names s NSeed = None;
-  sh_seed : 15 <= pc (procs s p) ->
+  sh_sock : 12 <= pc (procs s p) -> names s NSock = None;
+  sh_lock : 14 <= pc (procs s p) -> names s NLock = None;
+  sh_unlseed : pc (procs s p) = 16 -> names s NSeed = None;
+  sh_seedopen : pc (procs s p) = 17 ->
             exists f, names s NSeed = Some f /\ next s0 <= f /\ inodes s f = seed_inode;
-  sh_pid : 16 <= pc (procs s p) -> names s NPid = None }.
+  sh_seed : 18 <= pc (procs s p) ->
+            exists f, names s NSeed = Some f /\ next s0 <= f /\ inodes s f = seed_inode /\ content s f = Some p;
+  sh_pid : 19 <= pc (procs s p) -> names s NPid = None }.
 
-Lemma shutdown_progress : forall s0 s p, ShInv s0 s p -> pc (procs s p) < 16 ->
+Lemma shutdown_progress : forall s0 s p, ShInv s0 s p -> pc (procs s p) < 19 ->
   exists s', step s (Step p) = Some s' /\ ShInv s0 s' p /\ pc (procs s' p) = S (pc (procs s p)).
 Proof.
-  intros s0 s p [Hr Hpc Hnx Hsock Hlock Huseed Hseed Hpid] Hlt.
+  intros s0 s p [Hr Hpc Hnx Hsock Hlock Huseed Hsopen Hseed Hpid] Hlt.
   assert (Hst : startable (procs s p) = true) by (unfold startable; now rewrite Hr).
   assert (Hc : exists a s1 pr1, nth_error prog (pc (procs s p)) = Some a /\ exec s p (procs s p) a = Cont s1 pr1 /\
      next s0 <= next s1 /\
-     (10 <= S (pc (procs s p)) -> names s1 NSock = None) /\
-     (12 <= S (pc (procs s p)) -> names s1 NLock = None) /\
-     (S (pc (procs s p)) = 14 -> names s1 NSeed = None) /\
-     (15 <= S (pc (procs s p)) -> exists f, names s1 NSeed = Some f /\ next s0 <= f /\ inodes s1 f = seed_inode) /\
-     (16 <= S (pc (procs s p)) -> names s1 NPid = None) /\ procs s1 = procs s).
-  { assert (Hsock' : 10 <= pc (procs s p) -> names s NSock = None) by exact Hsock.
-    assert (Hlock' : 12 <= pc (procs s p) -> names s NLock = None) by exact Hlock.
-    destruct (pc (procs s p)) as [|[|[|[|[|[|[|[|[|[|[|[|[|[|[|[|n]]]]]]]]]]]]]]]] eqn:Hk; try (exfalso; lia).
+     (12 <= S (pc (procs s p)) -> names s1 NSock = None) /\
+     (14 <= S (pc (procs s p)) -> names s1 NLock = None) /\
+     (S (pc (procs s p)) = 16 -> names s1 NSeed = None) /\
+     (S (pc (procs s p)) = 17 -> exists f, names s1 NSeed = Some f /\ next s0 <= f /\ inodes s1 f = seed_inode) /\
+     (18 <= S (pc (procs s p)) -> exists f, names s1 NSeed = Some f /\ next s0 <= f /\ inodes s1 f = seed_inode /\
+                                            content s1 f = Some p) /\
+     (19 <= S (pc (procs s p)) -> names s1 NPid = None) /\ procs s1 = procs s).
+  { assert (Hsock' : 12 <= pc (procs s p) -> names s NSock = None) by exact Hsock.
+    assert (Hlock' : 14 <= pc (procs s p) -> names s NLock = None) by exact Hlock.
+    destruct (pc (procs s p)) as [|[|[|[|[|[|[|[|[|[|[|[|[|[|[|[|[|[|[|n]]]]]]]]]]]]]]]]]]] eqn:Hk; try (exfalso; lia).
     - exists (Unlink NSock). cbn. do 2 eexists. repeat split; eauto; try (intros; exfalso; lia).
     - exists CloseSock. cbn. destruct (sockfd (procs s p)); do 2 eexists; repeat split; eauto;
         try (intros; exfalso; lia); cbn; auto with arith.
@@ -600,12 +620,16 @@ Proof.
         try (intros; exfalso; lia); cbn; auto with arith.
     - exists (Unlink NSeed). cbn. do 2 eexists. repeat split; eauto; try (intros; exfalso; lia); cbn;
         auto with arith.
-    - exists WriteSeed. cbn. rewrite (Huseed eq_refl). do 2 eexists. repeat split; eauto;
+    - exists OpenSeed. cbn. rewrite (Huseed eq_refl). do 2 eexists. repeat split; eauto;
         try (intros; exfalso; lia); cbn; auto with arith.
       intros _. exists (next s). cbn. unfold upd. rewrite Nat.eqb_refl. auto.
+    - exists WriteSeed. cbn. destruct (Hsopen eq_refl) as (f & Hf & Hge & Hino). rewrite Hf.
+      do 2 eexists. repeat split; eauto; try (intros; exfalso; lia); cbn; auto with arith.
+      all: intros _; first [apply Hsock'; lia | apply Hlock'; lia
+                           | exists f; cbn; unfold upd; rewrite Nat.eqb_refl; auto].
     - exists (Unlink NPid). cbn. do 2 eexists. repeat split; eauto; try (intros; exfalso; lia); cbn;
         auto with arith; intros; first [apply Hsock'|apply Hlock'|apply Hseed]; lia. }
-  destruct Hc as (a & s1 & pr1 & Hn & E & A1 & A2 & A3 & A4 & A5 & A6 & Hp).
+  destruct Hc as (a & s1 & pr1 & Hn & E & A1 & A2 & A3 & A4 & A5 & A6 & A7 & Hp).
   eexists. split; [eapply step_cont; eauto|]. split; [|cbn; now rewrite upd_same].
   constructor; cbn; rewrite ?upd_same; cbn; auto. lia.
 Qed.
@@ -613,8 +637,8 @@ Qed.
 Lemma clear_not : forall f p i, clear f p i <> Some p.
 Proof. unfold clear; intros f p i. destruct (f i) as [w|]; [|discriminate]. destruct (Nat.eqb_spec w p); congruence. Qed.
 
-Lemma shutdown_run : forall n s0 s p, ShInv s0 s p -> pc (procs s p) + n = 16 ->
-  exists s', run s (repeat (Step p) n) = Some s' /\ ShInv s0 s' p /\ pc (procs s' p) = 16.
+Lemma shutdown_run : forall n s0 s p, ShInv s0 s p -> pc (procs s p) + n = 19 ->
+  exists s', run s (repeat (Step p) n) = Some s' /\ ShInv s0 s' p /\ pc (procs s' p) = 19.
 Proof.
   induction n as [|n IH]; intros s0 s p Sh Hk; cbn [repeat run].
   - exists s. split; [reflexivity|]. split; [assumption|lia].
@@ -622,35 +646,52 @@ Proof.
     apply IH; auto. lia.
 Qed.
 
+(* the seed file after a clean stop is a NEW one: an inode that did not exist when the stop began, complete, and
+   written by the stopping process itself (content = Some p: the generation that wrote it) *)
 Theorem clean_stop_postcondition : forall s p, st (procs s p) = Running -> pc (procs s p) = serve_pc ->
   exists s', run s (Term p :: repeat (Step p) (length shutdown)) = Some s' /\
     st (procs s' p) = Exited /\
     names s' NSock = None /\ names s' NLock = None /\ names s' NPid = None /\
-    (exists f, names s' NSeed = Some f /\ next s <= f /\ inodes s' f = seed_inode) /\
+    (exists f, names s' NSeed = Some f /\ next s <= f /\ inodes s' f = seed_inode /\ content s' f = Some p) /\
     (forall i, lockown s' i <> Some p) /\ (forall j, listener s' j <> Some p).
 Proof.
   intros s p Hr Hpc. cbn [run length shutdown].
-  assert (Ht : step s (Term p) = Some (set_proc s p (mkProc Running 9 (lockfd (procs s p)) (sockfd (procs s p))))).
+  assert (Ht : step s (Term p) = Some (set_proc s p (mkProc Running 11 (lockfd (procs s p)) (sockfd (procs s p))))).
   { unfold step. rewrite Hr, Hpc. reflexivity. }
   rewrite Ht.
   set (s1 := set_proc s p _).
   assert (Sh : ShInv s s1 p).
   { subst s1. constructor; cbn; rewrite ?upd_same; cbn; auto; try (intros; exfalso; lia). lia. }
-  change 8 with (S 7). cbn [repeat].
-  destruct (shutdown_run 7 s s1 p Sh) as (s2 & Hrun & Sh2 & Hpc2).
+  change 9 with (S 8). cbn [repeat].
+  destruct (shutdown_run 8 s s1 p Sh) as (s2 & Hrun & Sh2 & Hpc2).
   { subst s1. cbn. now rewrite upd_same. }
-  assert (Hsplit : forall s, run s (repeat (Step p) 7 ++ [Step p]) = run s (Step p :: repeat (Step p) 7)) by reflexivity.
+  assert (Hsplit : forall s, run s (repeat (Step p) 8 ++ [Step p]) = run s (Step p :: repeat (Step p) 8)) by reflexivity.
   rewrite <- Hsplit.
   assert (Happ : forall a b s, run s (a ++ b) = match run s a with Some s' => run s' b | None => None end).
   { induction a as [|x a IHa]; intros b s3; cbn; auto. destruct (step s3 x); auto. }
   rewrite Happ, Hrun. cbn [run].
-  destruct Sh2 as [Hr2 _ _ Hsock Hlock _ Hseed Hpid].
+  destruct Sh2 as [Hr2 _ _ Hsock Hlock _ _ Hseed Hpid].
   unfold step. unfold startable. rewrite Hr2, Hpc2. cbn.
   eexists. split; [reflexivity|]. cbn. rewrite upd_same. cbn.
   repeat split; auto; try (apply Hsock + apply Hlock + apply Hpid; lia).
   - apply Hseed. lia.
   - intros i. apply clear_not.
   - intros j. apply clear_not.
+Qed.
+
+(* in every reachable state: whatever seed file was there when the stop began, the one left by the stop is another *)
+Theorem seed_renewed : forall sched s p, run init sched = Some s ->
+  st (procs s p) = Running -> pc (procs s p) = serve_pc ->
+  exists s', run s (Term p :: repeat (Step p) (length shutdown)) = Some s' /\
+    exists f, names s' NSeed = Some f /\ names s NSeed <> Some f /\ content s' f = Some p /\
+              (forall q, q <> p -> content s' f <> Some q).
+Proof.
+  intros sched s p Hrun Hr Hpc.
+  destruct (clean_stop_postcondition s p Hr Hpc) as (s' & Hs' & _ & _ & _ & _ & (f & Hf & Hge & _ & Hc) & _).
+  exists s'. split; [assumption|]. exists f. repeat split; auto.
+  - intros Hold. assert (G : GInv s) by (eapply GInv_run; eauto using GInv_init).
+    apply (g_names_lt _ G) in Hold. lia.
+  - intros q Hne Hq. congruence.
 Qed.
 
 (* ---- wrappers in the vocabulary of the property ---- *)
